@@ -63,6 +63,10 @@ CHECKS["C12"] = dict(cat="model_checking", ref="DESIGN.md 4/C12",
     text="ANY byte string of the stated length (all bytes symbolic but the function-code position) is sent to each front-end in one or two reads: no exception leaves the front-end (Twisted: reactor contract), the datastore afterwards is unchanged or exactly what a checksum-valid write frame contained in the input prescribes (C07's recogniser + register-file model), and a probe request on a fresh connection is answered correctly.",
     note="Inputs: TCP 12 bytes, RTU 8, ASCII 17 in quick (more lengths/function codes in thorough). CRC as uninterpreted contract on both receiver and recogniser side. The ASCII lenient-LRC region is a listed known finding.",
     technique=TECH)
+CHECKS["C17"] = dict(cat="model_checking", ref="DESIGN.md 4/C17",
+    text="Differential symbolic model checking: the synchronous, asyncio and Twisted front-ends (stream trio and datagram trio) are run on the SAME symbolic request bytes (1-2 requests of a given function code, every body byte, ids and the initial coils/registers symbolic; valid and invalid requests alike) on copies of the same datastore: outputs byte-identical, final datastores identical, same decision to give the connection up. Interleaving obligation: two connections with reads a1, b, a2 (a split ASCII frame) get exactly the output they get alone - framing state is per connection.",
+    note="No reference model is needed (the front-ends are each other's oracle), so any request body is in scope. Only features all front-ends support (no broadcast). Sync interleaving is emulated at recv() boundaries. Twisted UDP's shared, never-reset framer is a listed known finding.",
+    technique=TECH)
 NA_REASON = "check not built yet in this revision (work in progress; see DESIGN.md build order)"
 
 def main():
